@@ -354,6 +354,36 @@ impl Gen {
     self.plan.push_back((Op::Recv(1, Req::Members { id, chan: "!c1@localhost".into(), page: None, size: None }), Self::ok_env()));
   }
 
+  /// scenario `acl`, after a scripted connection was closed by the server (typically the owner, refused with a
+  /// non-recoverable POLICY_VIOLATION for an over-limit update): the survivors read every list back and probe,
+  /// so that a refused update that nevertheless took effect is seen
+  pub fn plan_acl_aftermath(&mut self) {
+    self.mode = "acl_aftermath".into();
+    self.plan.clear();
+    let chan = "!c1@localhost".to_string();
+    let live: Vec<usize> = self.conns.iter().filter(|(k, c)| c.open && **k <= 4).map(|(k, _)| *k).collect();
+    for t in ["join", "publish", "read"] {
+      for k in &live {
+        let id = self.id();
+        self.plan.push_back((Op::Recv(*k, Req::GetAcl { id, chan: chan.clone(), ty: t, page: None, size: None }), Self::ok_env()));
+        self.bump("getacl");
+      }
+    }
+    for k in &live {
+      let id = self.id();
+      let mut env = Self::ok_env();
+      if self.cfg.modulator.is_some() {
+        env.verdict = Some(VerdictS::Valid);
+      }
+      let payload = format!("after{}-{}", id, k).into_bytes();
+      self.plan.push_back((Op::Recv(*k, Req::Broadcast { id, chan: chan.clone(), qos: None, payload }), env));
+      self.bump("broadcast");
+      let id = self.id();
+      self.plan.push_back((Op::Recv(*k, Req::Join { id, chan: chan.clone(), ob: None }), Self::ok_env()));
+      self.bump("join");
+    }
+  }
+
   fn plan_acl_round(&mut self) {
     let chan = "!c1@localhost".to_string();
     let ty = *self.rng.pick(&["join", "publish", "read", "read"]);
@@ -860,7 +890,7 @@ pub async fn run_case(cfg: SrvCfg, rng: Rng, max_steps: usize, mode: &str) -> (C
   let mut steps = 0;
   let mut oracle = crate::oracle::Oracle::new(&cfg);
   while steps < max_steps {
-    if g.mode.starts_with("kf_") && g.plan.is_empty() {
+    if (g.mode.starts_with("kf_") || g.mode == "acl_aftermath") && g.plan.is_empty() {
       break;
     }
     let (op, env) = g.next(&oracle);
@@ -913,6 +943,12 @@ pub async fn run_case(cfg: SrvCfg, rng: Rng, max_steps: usize, mode: &str) -> (C
     }
     // a scenario whose scripted connections died has nothing left to say
     if g.mode == "acl" && closed_any {
+      if env.ev_ok {
+        g.plan_acl_aftermath();
+      } else {
+        break;
+      }
+    } else if g.mode == "acl_aftermath" && closed_any {
       break;
     }
     // without visible hand-over events the owner oracle is blind: end the history here
